@@ -71,7 +71,7 @@ try:
     tests = ""
     if a.tests:
         r = subprocess.run(["/venv/bin/python", "-m", "pytest", "-q", "-x", "-p", "no:cacheprovider", "--timeout=900"] + a.tests,
-                           cwd=d, capture_output=True, text=True)
+                           cwd=d, capture_output=True, text=True, env=dict(os.environ, OMP_NUM_THREADS="1", MKL_NUM_THREADS="1", OPENBLAS_NUM_THREADS="1"))
         tail = r.stdout.strip().splitlines()[-1] if r.stdout.strip() else ""
         print("== repo tests:", tail)
         tests = f" tests[{' '.join(a.tests)}]: {tail}"
